@@ -227,7 +227,7 @@ Section Tree.
     cbn [RoundtripGen.gobj RoundtripGen.eobj]. rewrite Hm.
     set (q := match qn with Some ((_ :: _) as q) => q | _ => m_qname m end).
     set (gats := flat_map (fun var => g_attr c u ign var (field_of fs var)) (get_attribute_vars m)).
-    pose proof (class_pairs cl fs m Hwc Hnames) as Hps.
+    pose proof (class_pairs_fits c u ok _ _ cl fs m Hwc Hnames Hfe) as Hps.
     set (gks := flat_map (fun vv => g_field c u (gobj n) (fst vv) (snd vv)) (pairs cl fs m)).
     (* attributes *)
     assert (Hrel : Forall2 attr_rel (map (fun a => (of_qname (fst a), of_wval c (snd a))) gats)
